@@ -39,7 +39,8 @@ func emitSeq(o *leanOut, repo string) {
 
 	// ---- effect skeletons of the sequencer
 	seq := &skelCfg{
-		prefixes: []string{"l.c.Backend.", "l.c.Lock.", "config.Backend.", "config.Lock."},
+		prefixes: []string{"l.c.Backend.", "l.c.Lock.", "config.Backend.", "config.Lock.", "l.issuersMu.", "l.poolMu."},
+		lookups:  []string{"p.byHash[", "l.inSequencing[", "l.issuers[", "p.err"},
 		exact: map[string]bool{"applyStagedUploads": true, "l.cachePut": true, "signTreeHead": true,
 			"timeNowUnixMilli": true, "close": true, "fetchAndDecompress": true, "openCheckpoint": true,
 			"l.cacheGet": true, "l.uploadIssuer": true, "l.sequencePool": true, "l.sequence": true,
@@ -47,14 +48,16 @@ func emitSeq(o *leanOut, repo string) {
 			"tlog.TileHashReader": true, "tlog.HashFromTile": true, "tlog.RecordHash": true, "sunlight.ReadTileLeaf": true,
 			"initCache": true, "g.Wait": true, "legacyStagingPath": true, "stagingPath": true},
 		assigns: []string{"l.tree", "l.lockCheckpoint", "l.edgeTiles", "p.timestamp", "p.firstLeafIndex", "p.err",
-			"l.inSequencing", "l.currentPool", "l.currentPool.err", "p.byHash", "p.pendingLeaves", "p.lowPriority"},
+			"l.inSequencing", "l.currentPool", "l.currentPool.err", "p.byHash", "p.pendingLeaves", "p.lowPriority", "l.issuers["},
 		guards:    []string{"timestamp", "tileUploads", ".N ", "TileWidth", "PoolSize", "lowPriority", "errFatal", "c1."},
 		fatalMark: "errFatal",
 	}
 	o.strList("skelSequencePool", skeleton(ctlog, "(*Log).sequencePool", seq))
 	o.strList("skelSequence", skeleton(ctlog, "(*Log).sequence", seq))
 	o.strList("skelRunSequencer", skeleton(ctlog, "(*Log).RunSequencer", seq))
-	o.strList("skelAddLeafToPool", skeleton(ctlog, "(*Log).addLeafToPool", seq))
+	addLeaf := *seq
+	addLeaf.assignsExact = []string{"n", "idx"}
+	o.strList("skelAddLeafToPool", skeleton(ctlog, "(*Log).addLeafToPool", &addLeaf))
 	o.strList("skelUploadIssuer", skeleton(ctlog, "(*Log).uploadIssuer", seq))
 	o.strList("skelLoadLog", skeleton(ctlog, "LoadLog", seq))
 	o.strList("skelCreateLog", skeleton(ctlog, "CreateLog", seq))
